@@ -352,6 +352,10 @@ def compute_feats_from_kaldi_tables(args: Optional[Sequence[str]] = None) -> Non
         for preprocessor in preprocessors:
             buff = preprocessor.apply(buff, in_place=True)
         feats = computer.compute_full(buff)
+        if feats.shape[0]:
+            # (too-short utterances yield no frames: there is nothing to process)
+            for postprocessor in postprocessors:
+                feats = postprocessor.apply(feats)
         if not KaldiDataType.BaseMatrix.is_double:
             feats = feats.astype(np.float32)
         feat_writer.write(utt_id, feats)
